@@ -137,3 +137,4 @@ package rapidcore
 //@   requires s != nil
 //@   ensures [no-reservation-left] s.invokeCtx == nil
 //@   ensures [no-cached-init-error-left] s.cachedInitErrorResponse == nil
+
